@@ -103,6 +103,15 @@ class Axioms:
         trait = fn.get("trait") or ""
         dty = self.dest_ty(inst, t)
         h = None
+        ov = getattr(self, "overrides", None)
+        if ov:
+            # what-if runs: a named callee returns a fixed value (e.g. every Gamma variate is exactly 1) so that an algebraic identity
+            # of the caller can be checked exactly
+            k_ = fn.get("key") or raw
+            for rx, val in ov:
+                if rx.search(k_):
+                    self.used["override:" + rx.pattern] = self.used.get("override:" + rx.pattern, 0) + 1
+                    return val, st
         if raw.startswith(PANIC_PATHS):
             ip.event("panic:call", inst, bi, raw.split("<")[0], t.get("span"), fid=fid)
             return DIVERGE
@@ -671,7 +680,9 @@ def h_iter(mutable):
             if isinstance(a, Ax) and a.kind in ("iter", "range"):
                 return a, st
             return Ax("iter", (Top(), usize(0, (1 << 63) - 1))), st
-        eplace = (place[0], place[1], place[2] + (("e",),)) if place is not None else None
+        # with a separately tracked first element the summary reference stands for the elements at index >= 1 only
+        etail = ("e", (1, (1 << 63) - 1)) if v.head is not None else ("e",)
+        eplace = (place[0], place[1], place[2] + (etail,)) if place is not None else None
         hplace = (place[0], place[1], place[2] + (("e", (0, 0)),)) if place is not None else None
         head = Rf(hplace, v.head, mutable) if v.head is not None else None
         return Ax("iter", (Rf(eplace, v.elem, mutable), v.len, None, head)), st
@@ -687,7 +698,8 @@ def h_into_iter(ax, ip, inst, fid, bi, st, t, fn, args, argpl, dty):
     if isinstance(a, Rf):
         v, place = _vec_place(ip, ax, st, a)
         if v is not None:
-            eplace = (place[0], place[1], place[2] + (("e",),)) if place is not None else None
+            etail = ("e", (1, (1 << 63) - 1)) if v.head is not None else ("e",)
+            eplace = (place[0], place[1], place[2] + (etail,)) if place is not None else None
             hplace = (place[0], place[1], place[2] + (("e", (0, 0)),)) if place is not None else None
             head = Rf(hplace, v.head, a.mut) if v.head is not None else None
             return Ax("iter", (Rf(eplace, v.elem, a.mut), v.len, None, head)), st
@@ -878,6 +890,17 @@ def h_fold(ax, ip, inst, fid, bi, st, t, fn, args, argpl, dty):
     if e is None:
         return ip.top_of(dty), st
     acc = init
+    if isinstance(ln, In) and ln.lo == ln.hi and ln.lo <= 4096:
+        # exactly known length: apply the closure that many times (first to the separately tracked head, if any)
+        it = ip.materialize(args[0])
+        head = _iter_head(it) if isinstance(it, Ax) else None
+        for k_ in range(ln.lo):
+            x = head if (k_ == 0 and head is not None) else (it.data[0] if head is not None else e)
+            res = ip.call_value(args[2], [acc, x], st, inst, bi)
+            if res is DIVERGE:
+                return DIVERGE
+            acc, st = res
+        return acc, st
     for _ in range(4):
         res = ip.call_value(args[2], [acc, e], st, inst, bi)
         if res is DIVERGE:
@@ -902,6 +925,28 @@ def h_split_at(ax, ip, inst, fid, bi, st, t, fn, args, argpl, dty):
     a = Vc(v.elem, In(mid.lo, min(mid.hi, v.len.hi), 64, False))
     b = Vc(v.elem, In(max(v.len.lo - mid.hi, 0), max(v.len.hi - mid.lo, 0), 64, False))
     return St(None, [Rf(None, a, False), Rf(None, b, False)]), st
+
+
+def h_chunks(exact):
+    """slice::chunks_exact(k) / chunks(k): an iterator of sub-slices; with an exactly known length the number of chunks is exact
+    (chunks_exact drops the remainder of len % k elements — `remainder()` is not modelled)."""
+    def h(ax, ip, inst, fid, bi, st, t, fn, args, argpl, dty):
+        v, place = _vec_place(ip, ax, st, args[0])
+        k = _num(ip, ax, st, args[1])
+        if v is None or not isinstance(k, In) or k.lo != k.hi or k.lo <= 0:
+            return NOT_HANDLED
+        k = k.lo
+        e = v.all_elems()
+        n = v.len
+        if exact:
+            cnt = In(n.lo // k, n.hi // k, 64, False)
+            chunk = Vc(e, usize(k))
+        else:
+            cnt = In(-(-n.lo // k), -(-n.hi // k), 64, False)
+            short = n.lo % k if (n.lo == n.hi and n.lo % k) else (k if n.lo == n.hi else 1)
+            chunk = Vc(e, usize(min(short, k), k))
+        return Ax("iter", (Rf(None, chunk, False), cnt, None)), st
+    return h
 
 
 def h_minmax_ord(is_min):
@@ -1012,6 +1057,7 @@ PATH_AXIOMS = [(re.compile(p), h) for p, h in [
     (r"^alloc::vec::Vec::<T, A>::into_boxed_slice$", h_into_boxed),
     (r"^core::slice::<impl \[T\]>::iter$", h_iter(False)), (r"^core::slice::<impl \[T\]>::iter_mut$", h_iter(True)),
     (r"^core::slice::<impl \[T\]>::split_at$", h_split_at),
+    (r"^core::slice::<impl \[T\]>::chunks_exact$", h_chunks(True)), (r"^core::slice::<impl \[T\]>::chunks$", h_chunks(False)),
     (r"^core::ops::RangeInclusive::<Idx>::new$", h_range_incl_new), (r"^core::ops::RangeInclusive::<Idx>::contains$", h_contains),
     (r"^core::num::<impl INT>::leading_zeros$", h_leading_zeros), (r"^core::num::<impl INT>::abs_diff$", h_abs_diff),
     (r"^<alloc::boxed::Box<\[T\], A> as core::clone::Clone>::clone$", h_clone_prim),
